@@ -217,7 +217,7 @@ func c12Run(c *Ctx) {
 	files := []string{"f.json", "b.c", "a%20b.json", "é.json", "%41.json", "a%2Fb.json", "100%25.json", "a%2541.json"}
 	maxDirs := 2
 	if !c.Quick() {
-		maxDirs = 3
+		maxDirs = 4
 	}
 	c.Bound("directory_segments_in_reference", fmt.Sprint(maxDirs))
 	c.Bound("base_depth", "0..3")
